@@ -231,6 +231,12 @@ where
                 });
                 Ok(format!("range {} {}", r.start, r.end))
             }
+            "GCR" => {
+                // a collection issued from inside a reorder() closure (custom reordering code may do this; gc()
+                // supports being called while a reordering is prepared)
+                let n = self.mref.with_manager_exclusive(|m| m.reorder(|m| m.gc()));
+                Ok(format!("collected {n}"))
+            }
             "NC" => self.get(tok[1]).map(|f| format!("n {}", f.node_count())),
             "COUNTS" => {
                 // package ALLOC: the exact and the approximate (shared counter) number of inner nodes
@@ -1486,6 +1492,8 @@ mod vtrace {
                 crate::atrace::event(s, data);
                 return;
             }
+            // package CORETIE (case parameter core=1): table / count events into the allocator's log
+            crate::atrace::core_event(s, data);
             let on = ON.load(Relaxed);
             if !on {
                 if !SEQ.load(Relaxed) {
@@ -1828,6 +1836,27 @@ mod atrace {
             }
             log.push(e);
         }
+        /// Package CORETIE (case parameter `core=1`, together with `alloc=1`): the unique table's and
+        /// the reference counts' events (sites GOI_LEVEL 2, GOI_FOUND 3, GOI_NEW 4, GC_REMOVE 6,
+        /// RETAIN 11, RELEASE 12) go into the SAME mutex-ordered log as the allocator events, for the
+        /// whole case (inside and outside parallel blocks), as `EV K <thread> <site> <data ...>` with
+        /// the allocator log's thread numbers (replayed by ocaml/core_main.ml on coq/Mgr/Core.v)
+        static CORE: AtomicBool = AtomicBool::new(false);
+        pub fn core_event(s: u32, data: &[usize]) {
+            if !CORE.load(Relaxed) || !AON.load(Relaxed) || !matches!(s, 2 | 3 | 4 | 6 | 11 | 12) {
+                return;
+            }
+            let mut log = ALOG.lock().unwrap();
+            let mut e = format!("EV K {} {s}", tid());
+            for d in data {
+                e.push(' ');
+                e.push_str(&d.to_string());
+            }
+            log.push(e);
+        }
+        pub fn core_set(on: bool) {
+            CORE.store(on, Relaxed);
+        }
         pub fn begin() {
             super::super::vtrace::install();
             EPOCH.fetch_add(1, Relaxed);
@@ -1850,6 +1879,7 @@ mod atrace {
     #[cfg(not(oxidd_verif))]
     mod imp {
         pub fn begin() {}
+        pub fn core_set(_on: bool) {}
         pub fn drain() -> Vec<String> {
             Vec::new()
         }
@@ -2425,6 +2455,8 @@ fn main() {
                 if case.param("alloc") == Some("1") {
                     atrace::begin();
                 }
+                // package CORETIE: core=1 (with alloc=1) adds the table / count events to that log
+                atrace::core_set(case.param("core") == Some("1"));
                 match case.param("kind").unwrap_or("bdd") {
                     "bdd" => run_bool::<oxidd::bdd::BDDFunction>(case, oxidd::bdd::new_manager(cap, cache, threads), out),
                     "bcdd" => run_bool::<oxidd::bcdd::BCDDFunction>(case, oxidd::bcdd::new_manager(cap, cache, threads), out),
